@@ -147,8 +147,10 @@ ReturnNew(cmd, mclass, newo, log) ==
   /\ UNCHANGED unloaded
 
 CallObject ==
-  \E k \in Choices(1..5), i \in Choices(Ints), v \in Choices(DOMAIN handles \cup {"none"}) :
-    CASE k = 1 -> /\ v # "none" /\ Usable(v) /\ IsA(handles[v].mclass, "Base")
+  \E k \in Choices(1..6), i \in Choices(Ints), v \in Choices(DOMAIN handles \cup {"none"}) :
+    CASE k = 6 -> /\ v # "none" /\ Usable(v) /\ handles[v].mclass = "Other"      \* `Other& me()`: MATLAB receives a COPY it owns
+                  /\ ReturnNew(<<"call", v, "me">>, "Other", objs[handles[v].obj], <<"Other::me(" \o objs[handles[v].obj].name \o ")">>)
+      [] k = 1 -> /\ v # "none" /\ Usable(v) /\ IsA(handles[v].mclass, "Base")
                   /\ ReturnExisting(<<"call", v, "self">>, "Base", handles[v].obj, <<"Base::self(" \o objs[handles[v].obj].id \o ")">>)
       [] k = 2 -> \E kind \in Choices({"0", "1", "2"}) :
                   ReturnNew(<<"static", "Mid", "Make", "i:" \o kind, "i:" \o i>>, "Base",
